@@ -40,7 +40,7 @@ ASSUMPTIONS = [
     "a data event",
 ]
 NSHARDS = {"quick": 16, "thorough": 16}
-BUDGET_S = {"quick": 15, "thorough": 480}
+BUDGET_S = {"quick": 12, "thorough": 420}
 FLOORS = {
     "quick": {"evaluations": 4000, "distinct": 3500,
               "counters": {"faults_fired": 4000, "identity_checks": 3500,
